@@ -51,10 +51,24 @@ func (c *Ctx) evalIntMap(name string) (map[int64]constant.Value, bool) {
 		return nil, false
 	}
 	out := map[int64]constant.Value{}
+	next := int64(0)
 	for _, el := range cl.Elts {
 		kv, ok := el.(*ast.KeyValueExpr)
 		if !ok {
-			return nil, false
+			// an array / slice literal: positional elements continue after the last key
+			if _, isMap := c.Lib.TypesInfo.Types[cl].Type.Underlying().(*types.Map); isMap {
+				return nil, false
+			}
+			v := c.constVal(el)
+			if v == nil {
+				return nil, false
+			}
+			if _, dup := out[next]; dup {
+				return nil, false
+			}
+			out[next] = v
+			next++
+			continue
 		}
 		k, v := c.constVal(kv.Key), c.constVal(kv.Value)
 		if k == nil || v == nil {
@@ -68,6 +82,7 @@ func (c *Ctx) evalIntMap(name string) (map[int64]constant.Value, bool) {
 			return nil, false
 		}
 		out[ki] = v
+		next = ki + 1
 	}
 	return out, true
 }
@@ -165,6 +180,17 @@ func (c *Ctx) powerIndex(v ssa.Value) (ssa.Value, bool) {
 		if ps.g != nil && isLoadOfGlobal(v.X, ps.g) {
 			return v.Index, true
 		}
+	case *ssa.UnOp:
+		// table[tok] of an array / slice table
+		if ia, ok := v.X.(*ssa.IndexAddr); ok && v.Op == token.MUL && ps.g != nil {
+			if ia.X == ps.g || isLoadOfGlobal(ia.X, ps.g) {
+				return ia.Index, true
+			}
+		}
+	case *ssa.Index:
+		if ps.g != nil && isLoadOfGlobal(v.X, ps.g) {
+			return v.Index, true
+		}
 	case *ssa.Call:
 		if ps.fn != nil && staticCallee(v) == ps.fn && len(v.Call.Args) == 1 {
 			return v.Call.Args[0], true
@@ -202,7 +228,13 @@ func (c *Ctx) bpEvalS(v ssa.Value, labels []namedConst, bp *BP, subst map[*ssa.P
 		}
 	case *ssa.Parameter:
 		return bpVal{param: v, ok: true}
-	case *ssa.Lookup, *ssa.Call:
+	case *ssa.Phi:
+		// a power picked by an inner switch on the token: the constants the
+		// phi can carry under these labels
+		if ks, ok := c.constsFor(v, labels); ok {
+			return bpVal{vals: ks, ok: true}
+		}
+	case *ssa.Lookup, *ssa.Call, *ssa.UnOp, *ssa.Index:
 		index, isPower := c.powerIndex(v)
 		if !isPower {
 			return bpVal{}
@@ -311,6 +343,15 @@ func ruleP1(c *Ctx) *RuleResult {
 	r := &RuleResult{Doc: "precedence table order: pipe < or < and < comparators(equal) < flatten < filter < dot < not < lbracket < lparen; closers have power <= 0", Floor: 20}
 	bp := c.bindingPowers()
 	pos := c.pos(c.power().pos)
+	if g := c.power().g; g != nil {
+		// the evaluated literal is what the parser reads only if nothing writes the table
+		r.Instances++
+		if c.globalNeverWritten(g) {
+			r.ok("table-constant", pos, g.Name(), "the precedence table is written nowhere outside its initialiser")
+		} else {
+			r.viol("table-constant", pos, g.Name(), "the precedence table is written at run time: the powers the parser reads are not the ones of its initialiser")
+		}
+	}
 	names := make([]string, 0, len(specRank))
 	for n := range specRank {
 		names = append(names, n)
@@ -403,9 +444,35 @@ func ruleP2(c *Ctx) *RuleResult {
 	bo, _, lkIndex, swapped := c.prattCompare()
 	pos := c.pos(bo.Pos())
 	r.Instances++
-	strict := (bo.Op == token.LSS && !swapped) || (bo.Op == token.GTR && swapped)
+	// normalise to a relation rel(rbp, power); cont = the outcome of the
+	// comparison on which "rbp < power" holds
+	rel := bo.Op
+	if swapped {
+		switch rel {
+		case token.LSS:
+			rel = token.GTR
+		case token.GTR:
+			rel = token.LSS
+		case token.LEQ:
+			rel = token.GEQ
+		case token.GEQ:
+			rel = token.LEQ
+		}
+	}
+	cont := 0 // successor index of the branch that continues the loop
+	strict := false
+	switch rel {
+	case token.LSS:
+		strict, cont = true, 0
+	case token.GEQ:
+		strict, cont = true, 1
+	case token.LEQ:
+		cont = 0
+	case token.GTR:
+		cont = 1
+	}
 	if strict {
-		r.ok("pratt-strict", pos, fname(fn), "comparison is rbp < power(current): equal power stops (left associativity)")
+		r.ok("pratt-strict", pos, fname(fn), "comparison is rbp < power(current) (or its complement, leaving on rbp >= power): equal power stops (left associativity)")
 	} else {
 		r.viol("pratt-strict", pos, fname(fn), fmt.Sprintf("comparison is %q (swapped=%v), not the strict rbp < power(current): equal powers would associate to the right / loop would not continue", bo.Op, swapped))
 	}
@@ -430,15 +497,23 @@ func ruleP2(c *Ctx) *RuleResult {
 		if i, ok := ref.(*ssa.If); ok {
 			ifi = i
 		}
+		if u, ok := ref.(*ssa.UnOp); ok && u.Op == token.NOT {
+			for _, ref2 := range *u.Referrers() {
+				if i, ok := ref2.(*ssa.If); ok {
+					ifi = i
+					cont = 1 - cont
+				}
+			}
+		}
 	}
 	if ifi == nil {
 		r.undecided("pratt-branch", pos, fname(fn), "comparison does not feed a branch directly")
 	} else {
-		tb, fb := ifi.Block().Succs[0], ifi.Block().Succs[1]
+		tb, fb := ifi.Block().Succs[cont], ifi.Block().Succs[1-cont]
 		tReach := reachableFrom(tb, map[*ssa.BasicBlock]bool{ifi.Block(): true})
 		fReach := reachableFrom(fb, map[*ssa.BasicBlock]bool{ifi.Block(): true})
 		if tReach[ledCall.Block()] && !fReach[ledCall.Block()] {
-			r.ok("pratt-branch", pos, fname(fn), "led is called on the true edge only; the false edge leaves the loop")
+			r.ok("pratt-branch", pos, fname(fn), "led is called on the rbp < power edge only; the other edge leaves the loop")
 		} else {
 			r.viol("pratt-branch", pos, fname(fn), "the infix handler is not called exactly on the 'rbp < power' edge")
 		}
@@ -744,14 +819,39 @@ func ruleP3(c *Ctx) *RuleResult {
 					case top == c.A.Led && cl != nil && len(cl.Labels) > 0 && specRank[cl.Labels[0].Name] > 0 && isBinaryClause(cl):
 						// binary operator K: the right operand absorbs what binds tighter than K
 						want = tighter(cl.Labels[0].Name)
+						mixed := false
 						for _, l := range cl.Labels[1:] {
 							if !sameSet(want, tighter(l.Name)) {
-								want = nil
+								mixed = true
 							}
 						}
 						why = "right operand of left-associative binary " + clName + ": absorbs exactly the tighter-binding tokens"
-						if want == nil {
-							r.undecided(key, pos, fname(fn), "clause mixes operators of different rank")
+						if mixed {
+							// one clause for operators of different rank: decide label by label
+							okAll := true
+							var got []string
+							for _, l := range cl.Labels {
+								vl := c.bpEvalS(arg, []namedConst{l}, bp, cx.subst)
+								wl := tighter(l.Name)
+								if !vl.ok || vl.param != nil {
+									okAll = false
+									got = append(got, l.Name+": binding power not decided")
+									continue
+								}
+								for _, x := range vl.vals {
+									a := absorbed(x)
+									got = append(got, fmt.Sprintf("%s: rbp=%d absorbs %s, wanted %s", l.Name, x, tokSetStr(c, a), tokSetStr(c, wl)))
+									if !sameSet(a, wl) {
+										okAll = false
+									}
+								}
+							}
+							d := why + " (per operator); " + strings.Join(got, "; ")
+							if okAll {
+								r.ok(key, pos, fname(fn), d)
+							} else {
+								r.viol(key, pos, fname(fn), d)
+							}
 							continue
 						}
 					case top == c.A.Nud && cl != nil && cl.has("tNot"):
